@@ -110,7 +110,11 @@ def prepare_date(data, schema):
     if isinstance(data, datetime.date):
         return data.toordinal() - DAYS_SHIFT
     elif isinstance(data, str):
-        return datetime.date.fromisoformat(data).toordinal() - DAYS_SHIFT
+        try:
+            return datetime.date.fromisoformat(data).toordinal() - DAYS_SHIFT
+        except ValueError:
+            # not a date: leave it to the caller (another union branch may take it)
+            return data
     else:
         return data
 
